@@ -286,7 +286,16 @@ def deepMergeCheck (dct : KVs) : KVs → Except Err KVs
 
 /-! ## navigation in the monad -/
 
-/-- `Store.get_path(rel)` from the node at `pos`: the absolute path reached -/
+/-- what a process node does with a path step that is not one of its children
+(`topology_path`): a step naming one of its ports redirects through the topology (outside the
+modelled class: raises here), any other step finds nothing -/
+def procRedirects (a : Attrs) (step : String) : Except Err Bool :=
+  match a.topology with
+  | .dict tp => if KV.has step tp then .error .exception else .ok false
+  | _ => .error .typeError
+
+/-- `Store.get_path(rel)` from the node at `pos`: the absolute path reached.  A missing step
+raises, except at a process node, where `get_path` returns the process node itself. -/
 def walkT (t : Tree) : Path → Path → Except Err Path
   | pos, [] => .ok pos
   | pos, step :: rest =>
@@ -297,16 +306,25 @@ def walkT (t : Tree) : Path → Path → Except Err Path
     else
       match t.get (pos ++ [step]) with
       | some _ => walkT t (pos ++ [step]) rest
-      | none => .error .exception
+      | none =>
+        match t.get pos with
+        | some n =>
+          if n.attrs.value.isProc then
+            match procRedirects n.attrs step with
+            | .ok _ => .ok pos
+            | .error e => .error e
+          else .error .exception
+        | none => .error .exception
 
 def getPath (pos rel : Path) : FM Path := do
   let t ← root
   lift (walkT t pos rel)
 
 /-- `_establish_path(rel, {})` from `pos` without the final `_apply_config`: creates the
-missing nodes (`Store({})`) and returns the absolute path reached -/
-def establishPath : Path → Path → FM Path
-  | pos, [] => pure pos
+missing nodes (`Store({})`) and returns the absolute path reached; `none` is Python's `None`
+(a step below a process node that is not one of its ports) -/
+def establishPath : Path → Path → FM (Option Path)
+  | pos, [] => pure (some pos)
   | pos, step :: rest =>
     if step = ".." then
       match pos.reverse with
@@ -314,7 +332,9 @@ def establishPath : Path → Path → FM Path
       | _ :: up => establishPath up.reverse rest
     else do
       let n ← node pos
-      if n.attrs.value.isProc then throw .attributeError
+      if n.attrs.value.isProc then do
+        let _ ← lift (procRedirects n.attrs step)
+        pure none
       else
         match AL.lookup step n.inner with
         | some _ => establishPath (pos ++ [step]) rest
@@ -322,11 +342,20 @@ def establishPath : Path → Path → FM Path
           setAt (pos ++ [step]) Tree.empty
           establishPath (pos ++ [step]) rest
 
-/-- `_establish_path(rel, config)` -/
+/-- `_establish_path(rel, config)`, result possibly `None` -/
+def establishCfgOpt (pos rel : Path) (cfg : Val) : FM (Option Path) := do
+  match ← establishPath pos rel with
+  | some p => do
+    modify p (fun n => applyConfig n cfg)
+    pure (some p)
+  | none => pure none
+
+/-- `_establish_path(rel, config)` where the caller goes on to use the node
+(`None.attribute` raises) -/
 def establishCfg (pos rel : Path) (cfg : Val) : FM Path := do
-  let p ← establishPath pos rel
-  modify p (fun n => applyConfig n cfg)
-  pure p
+  match ← establishCfgOpt pos rel cfg with
+  | some p => pure p
+  | none => throw .attributeError
 
 /-! ## distributing schemas (`_topology_ports`, `_apply_subschema*`) -/
 
@@ -358,7 +387,7 @@ def topologyPorts : Nat → Path → Val → Val → FM Unit
                 applySubschema fuel p
                 modify p (fun n => .ok (applyDefaults n))
               else do
-                let _ ← establishCfg pos rel ps.2
+                let _ ← establishCfgOpt pos rel ps.2
                 pure ()) schema
       | _ => throw .attributeError
   | _ + 1, _, _, _ => throw .attributeError
